@@ -1942,10 +1942,14 @@ class Machine:
             for i, r in enumerate(self.contract.call_requires.get(key, [])):
                 self.ctx.check(self.spec_bool(r, extra=extra), f"{site}/caller-state[{i}]", "call-state")
         saved_env, saved_old, saved_result, saved_oldheap = self.env, self.old_env, self.result, self.old_heap
+        saved_oldextra = getattr(self, "old_extra", {})
+        saved_oldglobals = getattr(self, "old_globals", {})
         try:
+            self.old_globals = dict(self.global_syms)
             self.env = bound
             self.old_env = dict(bound)
             self.old_heap = {a: cell.value for a, cell in self.ctx.heap.items()}
+            self.old_extra = {a: dict(cell.extra) for a, cell in self.ctx.heap.items() if getattr(cell, "extra", None)}     # old() in the callee's clauses = the state at the call
             if not self.spec:
                 for i, r in enumerate(c.requires):
                     self.ctx.check(self.spec_bool(r), f"{site}/pre[{i}]", "call-pre")
@@ -1980,6 +1984,8 @@ class Machine:
             return res
         finally:
             self.env, self.old_env, self.result, self.old_heap = saved_env, saved_old, saved_result, saved_oldheap
+            self.old_extra = saved_oldextra
+            self.old_globals = saved_oldglobals
 
     def havoc_modifies(self, c: Contract) -> None:
         for g in c.modifies:
